@@ -40,7 +40,8 @@ HFrame(e, f) ==
             /\ sqm' = sqm @@ (f.qid :> [t |-> f.t, idx |-> r.idx + 1])
             /\ UNCHANGED scfg /\ Acc
 
-Class(p) == IF p.rcode = 0 THEN (IF p.an > 0 THEN "data" ELSE "nodata")
+(* for an address lookup an answer has data only if it carries an address record of the family asked for *)
+Class(p, api) == IF p.rcode = 0 THEN (IF (IF api \in {"gai", "ghbn"} THEN Len(p.recs) > 0 ELSE p.an > 0) THEN "data" ELSE "nodata")
             ELSE IF p.rcode = 3 THEN "nx" ELSE IF p.rcode = 2 THEN "servfail" ELSE IF p.rcode = 5 THEN "refused" ELSE "other"
 
 HRecv(e) ==
@@ -48,7 +49,7 @@ HRecv(e) ==
   ELSE LET m == sqm[e.qid]
            r == sr[m.t]
        IN IF m.idx # r.idx \/ e.tc = 1 THEN Skip
-          ELSE sr' = [sr EXCEPT ![m.t].seen = @ \cup {Class(e)}, ![m.t].answered = @ \cup {e.qid}] /\ UNCHANGED <<scfg, sqm>> /\ Acc
+          ELSE sr' = [sr EXCEPT ![m.t].seen = @ \cup {Class(e, r.api)}, ![m.t].answered = @ \cup {e.qid}] /\ UNCHANGED <<scfg, sqm>> /\ Acc
 
 HCbb(e) ==
   IF e.t \notin DOMAIN sr THEN Skip
@@ -58,9 +59,9 @@ HCbb(e) ==
        IN
        IF e.st \in {"ECANCELLED", "EDESTRUCTION"} THEN sr' = Without(sr, {e.t}) /\ UNCHANGED <<scfg, sqm>> /\ Acc
        ELSE IF e.st = "SUCCESS" THEN
-            (IF r.idx >= 1 /\ "data" \notin r.seen /\ r.api \in {"search", "lsearch"} THEN Rej("c12.success_without_data")
+            (IF r.idx >= 1 /\ "data" \notin r.seen THEN Rej("c12.success_without_data")
              ELSE sr' = Without(sr, {e.t}) /\ UNCHANGED <<scfg, sqm>> /\ Acc)
-       ELSE IF e.st \in {"ENODATA", "ENOTFOUND"} /\ r.api \in {"search", "lsearch"} THEN
+       ELSE IF e.st \in {"ENODATA", "ENOTFOUND"} THEN
             IF r.idx >= 1 /\ ~last /\ MayContinue(r) THEN Rej("c12.stopped_before_last_candidate")
             ELSE IF last /\ MayContinue(r) /\ r.seen \subseteq NoData /\ nd /\ e.st # "ENODATA" THEN Rej("c12.nodata_seen_but_reported_" \o e.st)
             ELSE IF last /\ MayContinue(r) /\ r.seen \subseteq NoData /\ ~nd /\ e.st # "ENOTFOUND" THEN Rej("c12.no_nodata_seen_but_reported_" \o e.st)
@@ -76,7 +77,7 @@ HSk(e) ==
     [] OTHER -> Skip
 
 Handle(e) ==
-  CASE e.e = "init" -> IF e.nsrv # 1 \/ e.tries # 1 \/ e.edns # 0 THEN Stop ELSE scfg' = e /\ UNCHANGED <<sr, sqm>> /\ Acc
+  CASE e.e = "init" -> IF e.nsrv # 1 \/ e.tries # 1 \/ e.edns # 0 THEN Stop ELSE scfg' = Effective(e) /\ UNCHANGED <<sr, sqm>> /\ Acc
     [] e.e = "call" -> HCall(e)
     [] e.e = "sk" -> HSk(e)
     [] e.e = "cbb" -> HCbb(e)
